@@ -19,6 +19,12 @@ CLAIMS = {
    technique="contract-based deductive verification: shared specification for both stores, VCs over go/ssa, SMT"),
 }
 
+CLAIMS["C07"] = dict(
+   text="Ghost protocol `errflow` on every mutating store, link-collection, typed-bucket and transaction function (listed in the evidence): on every path, a non-nil error returned by any callee implies a non-nil error result (or the declared error holder holds an error), with explicit holder postconditions (bucket.Err != nil ==> returned error != nil) on Create, Update, processDeleteConstraints and the TypedBucket link-count/list-entry operations; the closures DbImpl.Update/Batch hand to bbolt return every failure of the caller's function and of the pre-commit actions; post-commit functions carry a `committed` permission that no transaction code can provide, so they are reachable only as bbolt OnCommit callbacks.",
+   design="5/C07",
+   note=TRUST + ". Assumed, not proved: bbolt restores the database when the update function returns an error and runs OnCommit callbacks only after a successful commit (that is the whole 'left exactly as before' half); error holders latch (no code resets ErrorHolderImpl.Err); panic-freedom of these functions is not claimed here.",
+   technique="contract-based deductive verification: ghost error-flow protocol + postconditions, VCs over go/ssa, SMT")
+
 NA = {
 }
 
